@@ -1206,6 +1206,28 @@ func (c *Conn) writeRequest(ctx *Ctx) error {
 		c.sendLck.Unlock()
 	}
 
+	// The read loop raises goAway and then fails every request in the table
+	// that is above last-stream-id. This request went into the table after the
+	// check at the top of this function, so if the flag is up by now, the last
+	// moment before anything is written, the read loop may have been through
+	// the table before the request was there: it would then sit on a stream
+	// the server is never going to answer until its timeout, or for good
+	// without one. Whoever takes it out of the table deals with it.
+	if atomic.LoadUint32(&c.goAway) != 0 {
+		ReleaseHeaderField(hf)
+		c.deletePending(id)
+
+		if c.takeReq(id) {
+			return ErrNotAvailableStreams
+		}
+
+		// The read loop took it, failed it, and counted a stream as closed
+		// that this function had not yet counted as open.
+		atomic.AddInt32(&c.openStreams, 1)
+
+		return nil
+	}
+
 	c.bwLck.Lock()
 	c.boundWrites(ctx)
 
